@@ -274,7 +274,7 @@ pub fn judge(rep: &mut Report, runner: &mut Runner, family: &str, plain: &Ex, au
 		}
 	});
 	natives.sort();
-	let sk = match crate::judge::trigger(&minimal) {
+	let sk = match crate::judge::trigger_for(&kind, &minimal) {
 		Some(t) => t.to_owned(),
 		None if !natives.is_empty() => format!("involving std.{}", natives.join(", std.")),
 		None => skeleton(&minimal),
